@@ -213,9 +213,10 @@ package martian
 //@   noframe
 //@   requires proxyReady(p) && ctxIdle(ctx) && sessionIdle(ctx.session) && conn != nil && brw != nil && brw.Writer != nil && brw.Reader != nil
 //@   requires !ctx.session.hijacked && secureInv(ctx.session)
-//@   modifies nReq, nRes, reqSeq, resSeq, lastReqErr, lastResErr, nUp, nWrite, bufio.Writer.gFlushed, bufio.Writer.gFailed, wroteErr, gotReq, up0, res0, wr0, didLink, tunnelUp, tunnelConn, dialedConn, net.Conn.connClosed, eofSignalN, closingSeen, nConnClose, nWarn, lastWarnHeader, ctxs[*], ctxmu.wheld, ctxmu.rheld
+//@   modifies nReq, nRes, reqSeq, resSeq, lastReqErr, lastResErr, nUp, nWrite, bufio.Writer.gFlushed, bufio.Writer.gFailed, wroteErr, gotReq, up0, res0, wr0, didLink, tunnelUp, tunnelConn, dialedConn, net.Conn.connClosed, eofSignalN, nJoin, nCopy, closingSeen, nConnClose, nWarn, lastWarnHeader, ctxs[*], ctxmu.wheld, ctxmu.rheld
 //@   modifies http.Request.*, url.URL.*, http.Response.*, Session.hijacked, Session.secure, Session.conn, Session.brw, Context.skipRoundTrip, Context.skipLogging, Context.apiRequest
 //@   modifies sync.RWMutex.wheld, sync.RWMutex.rheld, dialN, lastDialed, lastDialErr, tls.Conn.gclosed, trafficshape.Conn.Context
+//@   ensures[every-started-copy-direction-is-joined; C04] nJoin - old(nJoin) == nCopy - old(nCopy)
 //@   ensures[locks-released] tableIdle() && sessionIdle(ctx.session) && ctxIdle(ctx)
 //@   ensures[every-idle-lock-is-idle-again] forall m *sync.RWMutex :: !old(m.wheld) && old(m.rheld) == 0 ==> !m.wheld && m.rheld == 0
 //@   ensures[response-modifier-never-runs-ahead] nRes - old(nRes) <= nReq - old(nReq)
@@ -254,7 +255,7 @@ package martian
 
 //@ ghost var dialedConn net.Conn
 //@ func (*Proxy).connect
-//@   serves C04 C02
+//@   serves C04 C02 C03
 //@   requires p != nil && req != nil && req.URL != nil
 //@   modifies nUp, dialedConn, net.Conn.connClosed, nConnClose
 //@   ensures[failed-connect-leaves-no-open-connection] result2 != nil && dialedConn != nil ==> dialedConn.connClosed
@@ -272,7 +273,7 @@ package martian
 //@   requires proxyReady(p) && ctxIdle(ctx) && sessionIdle(session) && session == ctx.session && conn != nil && brw != nil && brw.Writer != nil && brw.Reader != nil
 //@   requires req != nil && req.URL != nil && req.Header != nil && has(ctxs, req) && ctxs[req] == ctx && allocated(req)
 //@   requires !session.hijacked && secureInv(session)
-//@   modifies nReq, nRes, reqSeq, resSeq, lastReqErr, lastResErr, nUp, nWrite, bufio.Writer.gFlushed, bufio.Writer.gFailed, wroteErr, gotReq, up0, res0, wr0, didLink, tunnelUp, tunnelConn, dialedConn, net.Conn.connClosed, eofSignalN, closingSeen, nConnClose, nWarn, lastWarnHeader, ctxs[*], ctxmu.wheld, ctxmu.rheld
+//@   modifies nReq, nRes, reqSeq, resSeq, lastReqErr, lastResErr, nUp, nWrite, bufio.Writer.gFlushed, bufio.Writer.gFailed, wroteErr, gotReq, up0, res0, wr0, didLink, tunnelUp, tunnelConn, dialedConn, net.Conn.connClosed, eofSignalN, nJoin, nCopy, closingSeen, nConnClose, nWarn, lastWarnHeader, ctxs[*], ctxmu.wheld, ctxmu.rheld
 //@   modifies http.Request.*, url.URL.*, http.Response.*, Session.hijacked, Session.secure, Session.conn, Session.brw, Context.skipRoundTrip, Context.skipLogging, Context.apiRequest
 //@   modifies sync.RWMutex.wheld, sync.RWMutex.rheld, dialN, lastDialed, lastDialErr, tls.Conn.gclosed, trafficshape.Conn.Context
 //@   ensures[locks-released] tableIdle() && sessionIdle(session) && ctxIdle(ctx)
@@ -290,6 +291,9 @@ package martian
 //@   ensures[tunnel-end-releases-the-target-connection] p.mitm == nil && tunnelUp ==> tunnelConn.connClosed
 //@   ensures[tunnel-end-closes-the-client-connection] p.mitm == nil && tunnelUp ==> closeable(result)
 //@   at entry 0 before set tunnelUp = false
+//@   at recv all after set nJoin = nJoin + 1
+//@   at call all of handleConnectRequest$1 before set nCopy = nCopy + 1
+//@   ensures[every-started-copy-direction-is-joined-before-the-connections-are-released; C04] nJoin - old(nJoin) == nCopy - old(nCopy)
 //@   at call 0 of connect after set tunnelUp = (result2 == nil)
 //@   at call 0 of connect after set tunnelConn = result1
 //@   at call 1 of ModifyResponse before assert[failed-connect-becomes-a-502-with-a-warning] res.StatusCode == 502 && res.Request == req && lastWarnHeader == res.Header
@@ -303,11 +307,19 @@ package martian
 // ---------------------------------------------------------------------------------------------
 // The per-connection loop, shutdown and the accept loop (C01, C02, C07).
 
+// nArm counts SetDeadline calls on connections, nServe the exchanges started by handleLoop: every exchange gets the
+// full idle timeout, the deadline is not a budget for the whole connection.
+//@ ghost var nArm int
+//@ ghost var nServe int
+//@ extern iface net.Conn.SetDeadline
+//@   modifies nArm
+//@   ensures nArm == old(nArm) + 1
 //@ func (*Proxy).handleLoop
 //@   serves C01 C02 C07
 //@   noframe
+//@   modifies nArm, nServe
 //@   requires proxyReady(p) && conn != nil && !p.connsMu.held
-//@   modifies nReq, nRes, reqSeq, resSeq, lastReqErr, lastResErr, nUp, nWrite, bufio.Writer.gFlushed, bufio.Writer.gFailed, wroteErr, gotReq, up0, res0, wr0, didLink, tunnelUp, tunnelConn, dialedConn, net.Conn.connClosed, eofSignalN, closingSeen, nConnClose, nWarn, lastWarnHeader, ctxs[*], ctxmu.wheld, ctxmu.rheld
+//@   modifies nReq, nRes, reqSeq, resSeq, lastReqErr, lastResErr, nUp, nWrite, bufio.Writer.gFlushed, bufio.Writer.gFailed, wroteErr, gotReq, up0, res0, wr0, didLink, tunnelUp, tunnelConn, dialedConn, net.Conn.connClosed, eofSignalN, nJoin, nCopy, closingSeen, nConnClose, nWarn, lastWarnHeader, ctxs[*], ctxmu.wheld, ctxmu.rheld
 //@   modifies http.Request.*, url.URL.*, http.Response.*, Session.hijacked, Session.secure, Session.conn, Session.brw, Context.skipRoundTrip, Context.skipLogging, Context.apiRequest
 //@   modifies sync.RWMutex.wheld, sync.RWMutex.rheld, dialN, lastDialed, lastDialErr, tls.Conn.gclosed, trafficshape.Conn.Context, p.connsMu.held, net.Conn.connClosed
 //@   ensures[connection-closed-on-every-exit] conn.connClosed
@@ -318,6 +330,10 @@ package martian
 //@   loop 0 invariant nWrite - old(nWrite) <= nReq - old(nReq) && nRes - old(nRes) <= nReq - old(nReq)
 //@   at call 0 of newSession before assert[a-closing-proxy-serves-no-request-on-a-new-connection] !closingSeen && nReq == old(nReq)
 //@   at call 0 of handle before assert[one-session-for-all-exchanges-of-the-connection] ctx.session == s
+//@   loop 0 invariant nArm - old(nArm) == nServe - old(nServe)
+//@   at call 0 of handle before assert[idle-deadline-rearmed-before-every-exchange; C01] nArm - old(nArm) == nServe - old(nServe) + 1
+//@   at call 0 of handle after set nServe = nServe + 1
+//@   at call 0 of Done before assert[handler-reports-done-only-after-its-connection-is-closed; C07] conn.connClosed
 
 //@ func (*Proxy).Close
 //@   serves C07
@@ -340,6 +356,8 @@ package martian
 // (half-close or close) before anything waits for the other direction: otherwise the peer only sees end-of-stream when
 // the opposite direction also ends or the idle deadline fires. eofSignalN counts those signals.
 //@ ghost var eofSignalN int
+//@ ghost var nJoin int
+//@ ghost var nCopy int
 //@ ghost var tunnelUp bool
 //@ ghost var tunnelConn net.Conn
 //@ func (*Proxy).handleConnectRequest$1
